@@ -412,8 +412,10 @@ package mcap
     safety C14
     requires wfSizer(w) && !failed(sinkS(w))
     touches w
-    writesto sinkS(w)
+    writesto sinkS(w), hash w.crc.crc
     ensures wfSizer(w) && sinkS(w) == old(sinkS(w))
+    ensures [hash-fed-what-is-written] {C06} w.crc != nil ==> w.crc.crc == old(w.crc.crc) && ghost(crc_hi, w.crc.crc) == old(ghost(crc_hi, w.crc.crc)) + len(p)
+        && ghost(crc_last, w.crc.crc) == slid(p) && ghost(wr_last, sinkS(w)) == slid(p)
     ensures failed(sinkS(w)) == (r1 != nil)
     ensures offered(sinkS(w)) == old(offered(sinkS(w))) + len(p)
     ensures w.size == wrap64(old(w.size) + len(p))
@@ -776,6 +778,28 @@ package mcap
     requires wfWriter(w) && a != nil && a.Data != nil && okSink(w)
     ensures wfWriter(w) && sink(w) == old(sink(w))
     ensures failed(sink(w)) ==> r0 != nil
+    ensures [size-mismatch-or-source-failure-is-error] {C14} r0 == nil ==> offered(sink(w)) == old(offered(sink(w))) + 45 + len(a.Name) + len(a.MediaType) + a.DataSize
+    ensures [source-read-to-its-end-and-delivered-the-declared-size] {C14} r0 == nil ==> ghost(rd_eof, a.Data) && ghost(rd_pos, a.Data) == old(ghost(rd_pos, a.Data)) + a.DataSize
+    ensures [attachment-index-entry] {C05} r0 == nil ==> len(w.AttachmentIndexes) == old(len(w.AttachmentIndexes)) + 1
+        && w.AttachmentIndexes[len(w.AttachmentIndexes)-1].Offset == old(w.w.size)
+        && w.AttachmentIndexes[len(w.AttachmentIndexes)-1].Length == wrap64(45 + len(a.Name) + len(a.MediaType) + a.DataSize)
+        && w.AttachmentIndexes[len(w.AttachmentIndexes)-1].DataSize == a.DataSize
+        && w.AttachmentIndexes[len(w.AttachmentIndexes)-1].LogTime == a.LogTime
+        && w.AttachmentIndexes[len(w.AttachmentIndexes)-1].CreateTime == a.CreateTime
+        && w.AttachmentIndexes[len(w.AttachmentIndexes)-1].Name == a.Name
+        && w.AttachmentIndexes[len(w.AttachmentIndexes)-1].MediaType == a.MediaType
+    ensures [attachment-length-is-bytes-emitted] {C05} r0 == nil ==> w.w.size == wrap64(old(w.w.size) + 45 + len(a.Name) + len(a.MediaType) + a.DataSize)
+    ensures [attachment-count] {C08} r0 == nil ==> w.Statistics == old(w.Statistics) && w.Statistics.AttachmentCount == uint32(old(w.Statistics.AttachmentCount) + 1)
+        && len(w.AttachmentIndexes) == old(len(w.AttachmentIndexes)) + 1
+    ensures [attachment-other-counters] {C08} w.Statistics.MessageCount == old(w.Statistics.MessageCount) && w.Statistics.SchemaCount == old(w.Statistics.SchemaCount)
+        && w.Statistics.ChannelCount == old(w.Statistics.ChannelCount) && w.Statistics.ChunkCount == old(w.Statistics.ChunkCount) && w.Statistics.MetadataCount == old(w.Statistics.MetadataCount)
+        && w.Statistics.MessageStartTime == old(w.Statistics.MessageStartTime) && w.Statistics.MessageEndTime == old(w.Statistics.MessageEndTime)
+    call Copy#1 invariant wfWriter(w) && sink(w) == old(sink(w)) && !failed(sink(w))
+    call Copy#1 invariant [bytes-so-far] {C14 C05 C06} offered(sink(w)) == old(offered(sink(w))) + offset + copied
+        && w.w.size == wrap64(old(w.w.size) + offset + copied)
+    call Copy#1 invariant [attachment-crc-tracks-output] {C06} ghost(crc_hi, crcWriter.crc) == offset - 9 + copied
+    call Write#3 assert [attachment-crc-covers-fields-after-length] {C06} len(arg0) == 4
+        && le32at(arg0, 0) == crcsum(crcWriter.crc, offered(sink(w)) - old(offered(sink(w))) - 9)
 @*/
 
 /*@ func (*Writer).writeSummarySection
